@@ -16,7 +16,7 @@ ASSUMPTIONS = ["rapidfuzz.process.cdist(workers=-1) is answered with one thread 
                "edge vectors drawn from {0,0.5,1,2,3[,4]}; pseudocounts {0,0.5,1}",
                "normalised results compared to 1e-12; raw counts compared exactly"]
 REQUIRED_CLASSES = {"all": ["value-on-last-edge", "value-on-inner-edge", "total-zero-normalised", "pseudocount>0", "second-collection", "tcr-table-default-metric",
-                            "maxseqs-downsampled", "bins=0", "asymmetric-metric", "legacy-tuple", "free-running-threads", "default-bins-boundary"]}
+                            "maxseqs-downsampled", "bins=0", "asymmetric-metric", "legacy-tuple", "free-running-threads", "default-bins-boundary", "tcr-table-distances-beyond-25"]}
 MIN_OUTCOMES = 10
 SINGLE_THREAD_RAPIDFUZZ = True
 
@@ -148,6 +148,8 @@ def spaces(tier):
         yield ("background",)
         for n in (22, 23, 24, 25, 26):
             yield ("default-bins", n)
+        for n in (25, 27, 52, 60):
+            yield ("tcr-long", n)
 
     def gen_free():
         for seqs in E.lists(U2, 2, minlen=2):
@@ -272,6 +274,23 @@ def check_case(case, acc):
             _check_maxseqs_tuple(acc, case)
     elif kind == "background":
         _check_background(acc, case)
+    elif kind == "tcr-long":
+        # TCR tables whose CDR3s are up to n edits apart, binned with edges beyond the metric classes' own plotting range
+        n = case[1]
+        acc.cls("tcr-table-distances-beyond-25")
+        import pandas as pd
+        A = ["C" + "A" * (n - 1), "", "C" + "S" * (n - 1), "CAS"]
+        B = ["CASSF", "C" + "Q" * (n - 1), "", "CASSF"]
+        edges = list(range(0, 2 * n + 3))
+        for name, df, vals in (("alpha", pd.DataFrame({"CDR3A": A}), [ref_lev(A[i], A[j]) for i in range(4) for j in range(i + 1, 4)]),
+                               ("beta", pd.DataFrame({"CDR3B": B}), [ref_lev(B[i], B[j]) for i in range(4) for j in range(i + 1, 4)]),
+                               ("both", pd.DataFrame({"CDR3A": A, "CDR3B": B}), [ref_lev(A[i], A[j]) + ref_lev(B[i], B[j]) for i in range(4) for j in range(i + 1, 4)])):
+            r = acc.call(pyrepseq.pcDelta, df, bins=edges, normalize=False)
+            e = expected(vals, edges, False, 0)
+            if not same(r, e, False):
+                acc.fail("pcDelta/tcr-table/%s/long-cdr3" % name, case, e, r, note="distances %s" % sorted(vals))
+                return
+            acc.ok((name, n, tuple(vals)), nontrivial=True)
     elif kind == "default-bins":
         # default bins are range(0, 25): 24 bins, the last one closed ([23, 24]); distances of exactly n occur in this family
         n = case[1]
@@ -347,6 +366,15 @@ def _check_table(acc, case):
         acc.fail("pcDelta/legacy-tuple", case, exp, r)
         return
     acc.ok()
+    # the legacy tuple is (alpha, beta): a chain-specific metric must see the right chain
+    from pyrepseq.metric.tcr_metric import AlphaCdr3Levenshtein, BetaCdr3Levenshtein
+    for mcls, seqs_ in ((AlphaCdr3Levenshtein, A), (BetaCdr3Levenshtein, B)):
+        r = acc.call(pyrepseq.pcDelta, (A, B), metric=mcls(), bins=edges, normalize=False)
+        e = expected([ref_lev(seqs_[i], seqs_[j]) for i in range(n) for j in range(i + 1, n)], edges, False, 0)
+        if not same(r, e, False):
+            acc.fail("pcDelta/legacy-tuple/chain-specific-metric", case, e, r, note=mcls.__name__)
+            return
+        acc.ok()
     # the two chains as Series from differently indexed tables: paired by position
     r = acc.call(pyrepseq.pcDelta, (pd.Series(A, index=range(n)), pd.Series(B, index=range(n - 1, -1, -1))), bins=edges, normalize=False)
     if not same(r, exp, False):
